@@ -67,7 +67,7 @@ func checkValue(r *report.Run, m model.Bundle, label string) {
 	b1b, _ := serialise(&rb1)
 	multi := m.MapEntries() > 1
 	if !multi && !bytes.Equal(b1, b1b) {
-		r.Violation("c01.nondeterministic:"+label, "serialising the same value twice gave different bytes", map[string]interface{}{"bundle": m, "a": hx(b1), "b": hx(b1b)})
+		r.Violation("c01.nondeterministic", "serialising the same value twice gave different bytes", map[string]interface{}{"bundle": m, "a": hx(b1), "b": hx(b1b)})
 		return
 	}
 	p, err := parse(b1)
@@ -77,21 +77,21 @@ func checkValue(r *report.Run, m model.Bundle, label string) {
 	}
 	got := model.FromBpv7(p)
 	if got.Canon() != m.Canon() {
-		r.Violation("c01.lossy:"+label, "parsed bundle differs from the serialised value", map[string]interface{}{"want": m.Canon(), "got": got.Canon(), "bytes": hx(b1)})
+		r.Violation("c01.lossy", "parsed bundle differs from the serialised value", map[string]interface{}{"want": m.Canon(), "got": got.Canon(), "bytes": hx(b1)})
 		return
 	}
 	b2, err := serialise(&p)
 	if err != nil {
-		r.Violation("c01.reserialise:"+label, "re-serialising the parsed bundle failed: "+err.Error(), m)
+		r.Violation("c01.reserialise", "re-serialising the parsed bundle failed: "+err.Error(), m)
 		return
 	}
 	if multi {
 		if len(b1) != len(b2) {
-			r.Violation("c01.unstable-len:"+label, "re-serialisation changed the length", map[string]interface{}{"a": hx(b1), "b": hx(b2)})
+			r.Violation("c01.unstable-len", "re-serialisation changed the length", map[string]interface{}{"a": hx(b1), "b": hx(b2)})
 			return
 		}
 	} else if !bytes.Equal(b1, b2) {
-		r.Violation("c01.unstable:"+label, "serialise(parse(serialise(v))) differs from serialise(v)", map[string]interface{}{"bundle": m, "a": hx(b1), "b": hx(b2)})
+		r.Violation("c01.unstable", "serialise(parse(serialise(v))) differs from serialise(v)", map[string]interface{}{"bundle": m, "a": hx(b1), "b": hx(b2)})
 		return
 	}
 	// informational: compare with the independent encoder
@@ -111,7 +111,7 @@ func checkForeign(r *report.Run, x []byte, label string) bool {
 	p, err := parse(x)
 	if err != nil {
 		if len(err.Error()) > 6 && err.Error()[:6] == "panic:" {
-			r.Violation("c01.parse-panic:"+label, err.Error(), hx(x))
+			r.Violation("c01.parse-panic", err.Error(), hx(x))
 		}
 		r.Count("foreign.rejected", 1)
 		return false
@@ -131,28 +131,28 @@ func checkForeign(r *report.Run, x []byte, label string) bool {
 	}
 	m2 := model.FromBpv7(p2)
 	if id2 := p2.ID().String(); id1 != id2 {
-		r.Violation("c01.id-changed:"+label, fmt.Sprintf("bundle ID changed from %s to %s", id1, id2), map[string]interface{}{"bytes": hx(x), "reserialised": hx(y)})
+		r.Violation("c01.id-changed", fmt.Sprintf("bundle ID changed from %s to %s", id1, id2), map[string]interface{}{"bytes": hx(x), "reserialised": hx(y)})
 		return true
 	}
 	if !model.SameBlocks(m1.Blocks, m2.Blocks) {
-		r.Violation("c01.blocks-changed:"+label, "block list changed by re-serialisation", map[string]interface{}{"before": m1.Canon(), "after": m2.Canon(), "bytes": hx(x)})
+		r.Violation("c01.blocks-changed", "block list changed by re-serialisation", map[string]interface{}{"before": m1.Canon(), "after": m2.Canon(), "bytes": hx(x)})
 		return true
 	}
 	if n := len(m2.Blocks); n == 0 || m2.Blocks[n-1].Type != model.TPayload {
-		r.Violation("c01.payload-not-last:"+label, "payload block is not last after re-serialisation", map[string]interface{}{"after": m2.Canon(), "bytes": hx(x)})
+		r.Violation("c01.payload-not-last", "payload block is not last after re-serialisation", map[string]interface{}{"after": m2.Canon(), "bytes": hx(x)})
 		return true
 	}
 	y2, err := serialise(&p2)
 	if err != nil {
-		r.Violation("c01.idempotence-serialise:"+label, "second re-serialisation failed: "+err.Error(), hx(x))
+		r.Violation("c01.idempotence-serialise", "second re-serialisation failed: "+err.Error(), hx(x))
 		return true
 	}
 	if m2.MapEntries() > 1 {
 		if len(y) != len(y2) {
-			r.Violation("c01.not-idempotent-len:"+label, "second re-serialisation changed the length", map[string]interface{}{"y": hx(y), "y2": hx(y2)})
+			r.Violation("c01.not-idempotent-len", "second re-serialisation changed the length", map[string]interface{}{"y": hx(y), "y2": hx(y2)})
 		}
 	} else if !bytes.Equal(y, y2) {
-		r.Violation("c01.not-idempotent:"+label, "serialise(parse(y)) != y", map[string]interface{}{"bytes": hx(x), "y": hx(y), "y2": hx(y2)})
+		r.Violation("c01.not-idempotent", "serialise(parse(y)) != y", map[string]interface{}{"bytes": hx(x), "y": hx(y), "y2": hx(y2)})
 	}
 	if !bytes.Equal(x, y) {
 		r.Count("foreign.accepted_and_normalised", 1)
